@@ -193,6 +193,10 @@ class _FormulaMeta(ABCMeta):
                 _context=context,
             )._simplify()
         if isinstance(spec, (list, set, OrderedSet)):
+            if isinstance(spec, set):
+                # A set has no order of its own (iteration follows the hash
+                # seed): use a reproducible one.
+                spec = sorted(spec, key=str)
             terms = [
                 term
                 for value in spec
